@@ -9,6 +9,19 @@ BASELINE = ("cd /repo && env -u GSCRIB_VERIF /venv/bin/python -m pytest -ra -q -
 
 # id -> (technique, level text, level note, design ref)
 CLAIMED = {
+    "C19": (
+        "Lean 4 theorems over a hand-written model of the heightmap logic (range test and orientation, barycentric "
+        "interpolation over Q, Bresenham line, linspace, _filter_points by induction) with the spline and the triangulation "
+        "as parameters + differential correspondence against scipy-backed maps",
+        "Proof: C19_raster_sample/_range, C19_sparse_vertex/_between/_outside, C19_convex_between, C19_filter, "
+        "C19_path_ends_order, C19_raster_line, C19_raster_path, C19_flat for all grids, point sets, queries, scales and "
+        "tolerances; FITPACK and Qhull enter as parameters with their defining property as an explicit hypothesis. "
+        "Correspondence on random images and point sets; the one stored-point hypothesis scipy violates is a recorded finding.",
+        "Trusted: Lean kernel (propext, Classical.choice, Quot.sound), Mathlib Linarith/Ring in lemma files, model tied by "
+        "correspondence, Python harness; RectBivariateSpline, LinearNDInterpolator/Qhull and skimage.draw.line are modelled "
+        "(Bresenham is transcribed and checked pixel for pixel), float rounding sampled with 1e-9 margins.",
+        "DESIGN.md section 7 / C19",
+    ),
     "C07": (
         "Lean 4 invariant proof (Mirror between the Builder model and an independent modal interpreter, 17 clauses, per command "
         "and by induction over every prefix of every history) + differential correspondence over the full API",
